@@ -28,13 +28,16 @@ func sel(pkg, name string) ast.Expr { return &ast.SelectorExpr{X: ast.NewIdent(p
 func call(fn ast.Expr, args ...ast.Expr) *ast.CallExpr { return &ast.CallExpr{Fun: fn, Args: args} }
 
 type rw struct {
-	tmp int
+	tmp  int
+	lits []token.Pos // start positions of the function literals enclosing the statement being rewritten
+	decl token.Pos   // start of the enclosing function declaration
 }
 
 // resets collects, per package, statements that re-initialise lazily filled package-level caches
 // (sync.Map variables and maps named *cache*), so that every execution starts from a cold process state.
 var resets []string
 var resetNeedsSync bool
+var resetNeedsAtomic bool
 
 var reCacheName = regexp.MustCompile(`(?i)cache`)
 
@@ -54,6 +57,38 @@ func isSyncMapType(e ast.Expr) bool {
 	}
 	id, ok := se.X.(*ast.Ident)
 	return ok && id.Name == "sync" && se.Sel.Name == "Map"
+}
+
+// pkgQualified returns the package identifier of a (possibly generic, possibly pointer) qualified type expression pkg.T / pkg.T[X].
+func pkgQualified(e ast.Expr) (string, bool) {
+	if st, ok := e.(*ast.StarExpr); ok {
+		e = st.X
+	}
+	if ix, ok := e.(*ast.IndexExpr); ok {
+		e = ix.X
+	}
+	se, ok := e.(*ast.SelectorExpr)
+	if !ok {
+		return "", false
+	}
+	id, ok := se.X.(*ast.Ident)
+	if !ok {
+		return "", false
+	}
+	return id.Name, true
+}
+
+func typeSelName(e ast.Expr) string {
+	if st, ok := e.(*ast.StarExpr); ok {
+		e = st.X
+	}
+	if ix, ok := e.(*ast.IndexExpr); ok {
+		e = ix.X
+	}
+	if se, ok := e.(*ast.SelectorExpr); ok {
+		return se.Sel.Name
+	}
+	return ""
 }
 
 func isSyncPoolType(e ast.Expr) bool {
@@ -82,6 +117,20 @@ func collectResets(gd *ast.GenDecl) {
 			var init ast.Expr
 			if i < len(vs.Values) {
 				init = vs.Values[i]
+			}
+			// package-level atomics and Once values are zero in a fresh process
+			if vs.Type != nil && init == nil {
+				if pk, _ := pkgQualified(vs.Type); pk == "atomic" || (pk == "sync" && (typeSelName(vs.Type) == "Once" || typeSelName(vs.Type) == "Mutex" || typeSelName(vs.Type) == "RWMutex")) {
+					if _, ptr := vs.Type.(*ast.StarExpr); !ptr {
+						resets = append(resets, name.Name+" = "+exprString(vs.Type)+"{}")
+						if pk == "sync" {
+							resetNeedsSync = true
+						} else {
+							resetNeedsAtomic = true
+						}
+						continue
+					}
+				}
 			}
 			// a package-level sync.Pool starts empty in a fresh process
 			if vs.Type != nil && isSyncPoolType(vs.Type) {
@@ -232,7 +281,9 @@ func (r *rw) expr(e ast.Expr) ast.Expr {
 		return x
 	case *ast.FuncLit:
 		r.funcType(x.Type)
+		r.lits = append(r.lits, x.Pos())
 		r.block(x.Body)
+		r.lits = r.lits[:len(r.lits)-1]
 		return x
 	case *ast.ArrayType:
 		x.Elt = r.expr(x.Elt)
@@ -309,13 +360,57 @@ func needsWriteYield(s ast.Stmt) bool {
 	return false
 }
 
+// sharedVarWrite: the statement assigns to a variable that other goroutines can reach without a pointer: one declared
+// outside the innermost enclosing function literal (captured by the closure) or at package level (same file). Such a write
+// gets a scheduling point before AND after it, so that another thread can run between the write and the next read.
+func (r *rw) sharedVarWrite(s ast.Stmt) bool {
+	if !writeYields {
+		return false
+	}
+	shared := func(e ast.Expr) bool {
+		id, ok := e.(*ast.Ident)
+		if !ok || id.Obj == nil || id.Obj.Kind != ast.Var || id.Name == "_" {
+			return false
+		}
+		p := id.Obj.Pos()
+		if !p.IsValid() {
+			return false
+		}
+		if len(r.lits) > 0 {
+			return p < r.lits[len(r.lits)-1]
+		}
+		return r.decl.IsValid() && p < r.decl && packageLevel[id.Obj]
+	}
+	switch x := s.(type) {
+	case *ast.AssignStmt:
+		if x.Tok == token.DEFINE {
+			return false
+		}
+		for _, l := range x.Lhs {
+			if shared(l) {
+				return true
+			}
+		}
+	case *ast.IncDecStmt:
+		return shared(x.X)
+	}
+	return false
+}
+
+// packageLevel holds the objects of the package-level variables of the file being rewritten.
+var packageLevel = map[*ast.Object]bool{}
+
 func (r *rw) stmts(in []ast.Stmt) []ast.Stmt {
 	var out []ast.Stmt
 	for _, s := range in {
-		if needsWriteYield(s) {
+		sv := r.sharedVarWrite(s)
+		if sv || needsWriteYield(s) {
 			out = append(out, &ast.ExprStmt{X: call(sel("zzmc", "WriteYield"))})
 		}
 		out = append(out, r.stmt(s)...)
+		if sv {
+			out = append(out, &ast.ExprStmt{X: call(sel("zzmc", "WriteYield"))})
+		}
 	}
 	return out
 }
@@ -531,11 +626,22 @@ func rewriteFile(in, out string) error {
 				continue
 			}
 			collectResets(x)
+			if x.Tok == token.VAR {
+				for _, sp := range x.Specs {
+					for _, n := range sp.(*ast.ValueSpec).Names {
+						if n.Obj != nil {
+							packageLevel[n.Obj] = true
+						}
+					}
+				}
+			}
 			r.genDecl(x)
 		case *ast.FuncDecl:
 			r.fields(x.Recv)
 			r.funcType(x.Type)
+			r.decl = x.Pos()
 			r.block(x.Body)
+			r.decl = token.NoPos
 		}
 	}
 	if !hasImportDecl {
@@ -622,6 +728,9 @@ func main() {
 		if resetNeedsSync {
 			fmt.Fprintf(&rb, "import \"sync\"\n\n")
 		}
+		if resetNeedsAtomic {
+			fmt.Fprintf(&rb, "import \"sync/atomic\"\n\n")
+		}
 		rb.WriteString("// ZZVerifReset re-initialises the package's lazily filled caches (cold-process state).\nfunc ZZVerifReset() {\n")
 		for _, st := range resets {
 			rb.WriteString("\t" + st + "\n")
@@ -634,6 +743,7 @@ func main() {
 			os.Exit(2)
 		}
 		saved, savedSync := resets, resetNeedsSync
+		resetNeedsAtomic = false
 		if err := rewriteFile(raw, rp); err != nil { // the reset statements use plain Go (make(chan ...)): rewrite them too
 			fmt.Fprintln(os.Stderr, "instr: reset file:", err)
 			os.Exit(2)
